@@ -308,6 +308,59 @@ def count_canon(test, fn):
     return kind, cond, pol
 
 
+def row_regrouping(fn):
+    """K2b ROW-ORDER: `np.concatenate((X[m], X[~m] ..))` / vstack / r_ of two or more array-index selections of ONE batch array puts the rows of
+    the batch in another order (grouped by the condition); every other per-row input keeps the old order, so rows are paired with the
+    wrong partners (shapes fit).  -> [(call node, base name)]"""
+    import rules_lostwrite as lw
+    defs, loopvars = {}, set()
+    for a in ast.walk(fn):
+        if isinstance(a, ast.Assign) and len(a.targets) == 1 and isinstance(a.targets[0], ast.Name):
+            defs.setdefault(a.targets[0].id, []).append(a.value)
+    out = []
+    for c in ast.walk(fn):
+        ops = None
+        if isinstance(c, ast.Call) and getattr(c.func, "attr", "") in ("concatenate", "vstack", "row_stack") and c.args and isinstance(c.args[0], (ast.Tuple, ast.List)):
+            ax = next((k.value for k in c.keywords if k.arg == "axis"), c.args[1] if len(c.args) > 1 else None)
+            if ax is None or (isinstance(ax, ast.Constant) and ax.value == 0):
+                ops = c.args[0].elts
+        elif isinstance(c, ast.Subscript) and ast.unparse(c.value) == "np.r_" and isinstance(c.slice, ast.Tuple):
+            ops = c.slice.elts
+        if not ops:
+            continue
+        bases = {}
+        for e in ops:
+            b = e
+            first = None
+            while isinstance(b, ast.Subscript):
+                first = b
+                b = b.value
+            if isinstance(b, ast.Name) and first is not None:
+                idx = first.slice.elts[0] if isinstance(first.slice, ast.Tuple) and first.slice.elts else first.slice
+                if lw._kind(idx, defs, loopvars) == "array":
+                    bases[b.id] = bases.get(b.id, 0) + 1
+        for b, k in bases.items():
+            if k >= 2:
+                out.append((c, b))
+    return out
+
+
+_RR_BAD = """
+def f(points, dets):
+    neg = dets < 0
+    if np.any(neg):
+        points = np.concatenate((points[~neg], points[neg][:, (0, 1, 3, 2), :]))
+    return points
+"""
+_RR_OK = """
+def f(r1, r2, h, m1, m2, verts):
+    dim = np.c_[2 * np.concatenate((r2[m1], r1[m2])), h[m1]]
+    ends = np.concatenate([v[1:] for v in verts])
+    both = np.concatenate((r1[:3], r1[5:]))
+    return dim, ends, both
+"""
+
+
 def group_by_loop(fn, call):
     """`for v in np.unique(A)[.tolist()]:` whose body selects the rows with `A == v` and writes only under that selection: evaluation
     group by group.  Which groups exist depends on the batch, what a row receives does not (a value that does not occur selects no row).
@@ -563,6 +616,18 @@ def k1_k2(repo, res):
                 if not ok:
                     res.add(Finding("K2", m.rel, fname, n, "reduction/scan along the first axis (or without axis) in the numerical layer: may combine "
                                     "values of different batch rows (not a triaged site)", n.lineno))
+    res.require(len(row_regrouping(ast.parse(_RR_BAD).body[0])) == 1 and not row_regrouping(ast.parse(_RR_OK).body[0]),
+                "K2b ROW-ORDER: the embedded positive / negative examples are no longer told apart")
+    n_rr = 0
+    for m, fname, fn in field_functions(repo):
+        if fname not in batched:
+            continue
+        n_rr += 1
+        for c, b in row_regrouping(fn):
+            res.ob(f"K2b:{fname}:{norm(c)}", False, {"rule": "K2b", "function": fname, "construct": norm(c)})
+            res.add(Finding("K2b", m.rel, fname, c, f"two or more array-index selections of `{b}` are concatenated along the row axis: the rows of the batch are "
+                            "regrouped while the other per-row inputs keep their order", c.lineno))
+    res.ob("K2b:scan", True, {"rule": "K2b", "functions_scanned": n_rr, "embedded_examples": "positive fires, negative silent"}, nontrivial=False)
     res.analysed.update({"field_layer_functions": n_fn, "batch_level_tests": n1, "row_axis_reductions": n2,
                          "triage_entries_unused": sorted(f"{a}: {b}" for (a, b) in (set(K1_TRIAGED) | set(K2_TRIAGED)) - seen1 - seen2)})
     res.require(n_fn >= 80, f"only {n_fn} functions found in the numerical layer")
@@ -906,11 +971,13 @@ def twins(repo, res):
 
 
 def run(repo, res, tier):
-    res.rules = ["IDX-SPACE integer row numbers index arrays of their own space", "RUN-GROUP admission rule", "K1 batch-level branches", "K2 row-axis reductions", "TWIN scalar/vector branch agreement", "L2-GROUP", "L2-SCATTER", "L2-PAD", "K3 EXPAND-PAIR", "LAY axis-layout typing of the level-2 plumbing (assume/guarantee over get_src_dict, getBH_level1, getBH_level2)"]
+    res.rules = ["IDX-SPACE integer row numbers index arrays of their own space", "LOST-WRITE no store through an array-indexed copy", "RUN-GROUP admission rule", "K1 batch-level branches", "K2 row-axis reductions", "K2b ROW-ORDER no regrouping of batch rows", "TWIN scalar/vector branch agreement", "L2-GROUP", "L2-SCATTER", "L2-PAD", "K3 EXPAND-PAIR", "LAY axis-layout typing of the level-2 plumbing (assume/guarantee over get_src_dict, getBH_level1, getBH_level2)"]
     run_group(repo, res)
     k1_k2(repo, res)
     import rules_idxspace
     rules_idxspace.run(repo, res, "IDX-SPACE", lambda mn: mn.startswith(FIELDS))
+    import rules_lostwrite
+    rules_lostwrite.run(repo, res, "LOST-WRITE", lambda mn: mn.startswith(FIELDS))
     twins(repo, res)
     level2(repo, res)
     expand_pair(repo, res)
